@@ -1,15 +1,22 @@
 // C25 — HTTP size limits (server side): evhttp_set_max_headers_size / evhttp_set_max_body_size / EVHTTP_SERVER_LINGERING_CLOSE.
 //
-// A case = one well-formed request (POST, one Host field; header section either one huge field line or many short ones;
+// A case = one well-formed request (POST, one Host field; request line 16 bytes or, 1/8, padded to up to 40 KB; header section in one of
+// four line structures: many short lines / one huge field line / one field folded over 0-250 continuation lines (obs-fold: lines starting
+// with SP/HTAB runs, some with trailing whitespace) / short lines with continuation lines sprinkled in;
 // body none / Content-Length / chunked in 1-4 chunks, optionally a very long chunk-size line made of leading zeros, optionally
-// Expect: 100-continue; optionally cut off before the end) + limits drawn relative to the actual sizes
-// {unlimited, 0, 1, size-1, size, size+1, large} + lingering close on/off, delivered in two segmentations (whole, generated).
+// Expect: 100-continue; optionally cut off before the end: inside the header section, inside the request line, inside the long chunk-size line)
+// + limits drawn relative to the actual sizes {unlimited, 0, 1, size-1, size, size+1, large} + lingering close on/off, delivered in two
+// segmentations (whole, generated: random cuts / fixed pieces / around the end of the header section / one segment per line).
 //
 // The header-section measure is not documented ("XXX Document"), so the oracle brackets it:
-//   min = sum of the field-line lengths without CRLF and without the request line,
+//   min = sum of the field-line lengths without CRLF and without the request line; a continuation line counts only its content
+//         (without the surrounding whitespace),
 //   max = every byte from the request line to the empty line inclusive.
 // Clauses (checked for every segmentation separately):
 //   over-limit-delivered   a delivered request has min <= max_headers_size and body <= max_body_size (and the body is intact)
+//   delivered-fields       the field names + values handed to the callback (as the application sees them, folds joined) sum to <= max_headers_size
+//   parsed-fields          after every segment, no request still in progress holds more parsed field names + values than max_headers_size
+//                          (what is parsed and kept is buffered too: it must not grow past the limit while the message is incomplete)
 //   under-limit-rejected   max <= max_headers_size and body <= max_body_size  =>  the complete request is delivered (200)
 //   no-answer              a complete request that is not delivered is answered 413/400 or the connection is closed
 //   unbounded-buffering    with both limits finite, the connection's input buffer (sampled after every loop pass) never holds more
